@@ -16,8 +16,24 @@ func Eval(sd *SchemaDesc, d *Doc, w *World) (result interface{}, err error) {
 			err = fmt.Errorf("reference evaluator: %v", p)
 		}
 	}()
-	e := &evaluator{sd: sd, d: d, w: w}
-	return e.object("Query", nil, []*SelSet{d.Root}, nil), nil
+	e := &evaluator{sd: sd, d: d, w: w, applyForeign: true}
+	return e.object("Query", nil, []*SelSet{d.Root}, nil, false), nil
+}
+
+// EvalForeign is Eval with an explicit choice for a fragment that sits in an
+// object's selection set but is typed on another object type (Doc.Foreign):
+// apply=true is thunder's rule (such a fragment is validated against, and
+// applied to, the object it sits in; Eval's default), apply=false is GraphQL's
+// (it does not apply). Directly inside a union's selection set a fragment
+// always applies to its own member only.
+func EvalForeign(sd *SchemaDesc, d *Doc, w *World, apply bool) (result interface{}, err error) {
+	defer func() {
+		if p := recover(); p != nil {
+			err = fmt.Errorf("reference evaluator: %v", p)
+		}
+	}()
+	e := &evaluator{sd: sd, d: d, w: w, applyForeign: apply}
+	return e.object("Query", nil, []*SelSet{d.Root}, nil, false), nil
 }
 
 // Resolution is one field resolution a sequential evaluation performs.
@@ -36,8 +52,8 @@ func EvalTrace(sd *SchemaDesc, d *Doc, w *World, on func(Resolution)) (result in
 			err = fmt.Errorf("reference evaluator: %v", p)
 		}
 	}()
-	e := &evaluator{sd: sd, d: d, w: w, on: on}
-	return e.object("Query", nil, []*SelSet{d.Root}, nil), nil
+	e := &evaluator{sd: sd, d: d, w: w, on: on, applyForeign: true}
+	return e.object("Query", nil, []*SelSet{d.Root}, nil, false), nil
 }
 
 type evaluator struct {
@@ -45,6 +61,8 @@ type evaluator struct {
 	d  *Doc
 	w  *World
 	on func(Resolution)
+	// applyForeign: see EvalForeign
+	applyForeign bool
 }
 
 type group struct {
@@ -53,11 +71,13 @@ type group struct {
 }
 
 // collect gathers the fields that apply to an object of concrete type typ.
-func (e *evaluator) collect(typ string, sets []*SelSet) []*group {
+// unionLevel: sets is the selection set of a union-typed field (its fragments
+// dispatch on the member type); otherwise that of an object-typed field.
+func (e *evaluator) collect(typ string, sets []*SelSet, unionLevel bool) []*group {
 	var order []*group
 	byKey := map[string]*group{}
-	var visit func(s *SelSet)
-	visit = func(s *SelSet) {
+	var visit func(s *SelSet, unionLevel bool)
+	visit = func(s *SelSet, unionLevel bool) {
 		for _, it := range s.Items {
 			switch {
 			case it.Field != nil:
@@ -76,25 +96,29 @@ func (e *evaluator) collect(typ string, sets []*SelSet) []*group {
 				if !e.d.Included(it.Frag.Dirs) {
 					continue
 				}
-				if it.Frag.On != typ && !e.unionHas(it.Frag.On, typ) {
-					continue
+				switch {
+				case it.Frag.On == typ:
+					visit(it.Frag.Set, false)
+				case e.unionHas(it.Frag.On, typ):
+					visit(it.Frag.Set, unionLevel)
+				case !unionLevel && e.applyForeign:
+					visit(it.Frag.Set, false)
 				}
-				visit(it.Frag.Set)
 			}
 		}
 	}
 	for _, s := range sets {
 		if s != nil {
-			visit(s)
+			visit(s, unionLevel)
 		}
 	}
 	return order
 }
 
-func (e *evaluator) object(typ string, src interface{}, sets []*SelSet, path []string) interface{} {
+func (e *evaluator) object(typ string, src interface{}, sets []*SelSet, path []string, unionLevel bool) interface{} {
 	t := e.sd.Types[typ]
 	out := map[string]interface{}{}
-	for _, g := range e.collect(typ, sets) {
+	for _, g := range e.collect(typ, sets, unionLevel) {
 		f := g.fields[0]
 		if f.Name == "__typename" {
 			out[g.key] = typ
@@ -169,7 +193,7 @@ func (e *evaluator) complete(v interface{}, tr TypeRef, subs []*SelSet, path []s
 		if isNil(v) {
 			return nil
 		}
-		return e.object(tr.Name, v, subs, path)
+		return e.object(tr.Name, v, subs, path, false)
 	case KUnion:
 		th, _ := v.(*Thing)
 		if th == nil {
@@ -177,9 +201,9 @@ func (e *evaluator) complete(v interface{}, tr TypeRef, subs []*SelSet, path []s
 		}
 		switch {
 		case th.Node != nil:
-			return e.object("Node", th.Node, subs, path)
+			return e.object("Node", th.Node, subs, path, true)
 		case th.Leaf != nil:
-			return e.object("Leaf", th.Leaf, subs, path)
+			return e.object("Leaf", th.Leaf, subs, path, true)
 		}
 		return nil
 	}
